@@ -1,6 +1,6 @@
 //go:build verif
 
-package composite
+package decorator
 
 import (
 	"fmt"
@@ -19,9 +19,9 @@ import (
 // C01: reconciliation converges to the hook's desired children, then goes quiet (DESIGN §4 C01).
 // Configurations x hook programs x initial cluster contents, driven through `sync; deliverAll; gc` rounds.
 
-var c01Methods = []string{"<unset>", "OnDelete", "Recreate", "InPlace", "RollingRecreate", "RollingInPlace"}
+var c01Methods = []string{"<unset>", "OnDelete", "Recreate", "InPlace"}
 var c01Hooks = []string{"static0", "static1", "static2", "fromSpec", "ordered3", "echoStatus"}
-var c01Slot = []string{"absent", "owned", "owned-drifted", "owned+foreign", "orphan", "orphan-drifted"}
+var c01Slot = []string{"absent", "owned", "owned-drifted", "owned+foreign"}
 
 type c01Case struct {
 	Cluster  bool
@@ -41,9 +41,6 @@ type c01Case struct {
 type c01Prog func(req kit.M) (children kit.L, status kit.M)
 
 func c01Labels(c c01Case, o kit.M) kit.M {
-	if !c.GenSel {
-		kit.Labels(o, "app", "x")
-	}
 	return o
 }
 
@@ -58,7 +55,7 @@ func c01Program(c c01Case, hook string, cns string) c01Prog {
 	return func(req kit.M) (kit.L, kit.M) {
 		var out kit.L
 		status := kit.M{}
-		observed := kit.Map(req, "children", "Leaf.v1")
+		observed := kit.Map(req, "attachments", "Leaf.v1")
 		switch hook {
 		case "static0":
 		case "static1", "echoStatus":
@@ -66,8 +63,8 @@ func c01Program(c c01Case, hook string, cns string) c01Prog {
 		case "static2":
 			out = append(out, c01Child(c, kit.Leaf, cns, "a", "1"), c01Child(c, kit.Leaf, cns, "b", "1"))
 		case "fromSpec":
-			v, _ := kit.Get(req, "parent", "spec", "v").(string)
-			n, _ := kit.Get(req, "parent", "spec", "replicas").(int64)
+			v, _ := kit.Get(req, "object", "spec", "v").(string)
+			n, _ := kit.Get(req, "object", "spec", "replicas").(int64)
 			for i := int64(0); i < n; i++ {
 				out = append(out, c01Child(c, kit.Leaf, cns, []string{"a", "b", "c"}[i], v))
 			}
@@ -121,52 +118,38 @@ func c01Run(c c01Case) []mc.Finding {
 	if c.TwoKinds {
 		kinds = append(kinds, kit.Widget)
 	}
-	o := ccOpt{parent: pk, children: kinds, generateSel: c.GenSel, finalize: c.Finalize, ssa: c.SSA}
+	o := dcOpt{parents: []*sim.Kind{pk}, attachments: kinds, finalize: c.Finalize}
 	if c.Method != "<unset>" {
 		o.methods = map[string]v1alpha1.ChildUpdateMethod{}
 		for _, k := range kinds {
 			o.methods[k.Resource] = v1alpha1.ChildUpdateMethod(c.Method)
 		}
 	}
-	w := newCWorld(o, false)
+	w := newDWorld(o, false)
 	parent := kit.Obj(pk, pns, "p")
 	kit.Field(parent, "1", "spec", "v")
 	kit.Field(parent, int64(2), "spec", "replicas")
-	if !c.GenSel {
-		kit.Field(parent, kit.M{"matchLabels": kit.M{"app": "x"}}, "spec", "selector")
-		// documented obligation for rolling updates without generateSelector: ControllerRevisions are found
-		// through the labels of spec.template, which must satisfy the parent's own selector
-		kit.Field(parent, kit.M{"app": "x"}, "spec", "template", "metadata", "labels")
-	}
 	puid := w.Sim.Seed(parent)
-	key := parentKey(pns, "p")
+	key := dkey(parent)
 	prog := c01Program(c, "static2", cns)
 	h := world.JSON(func(req map[string]interface{}) interface{} {
 		ch, st := prog(req)
-		return kit.M{"children": ch, "status": st}
+		_ = st
+		return kit.M{"attachments": ch}
 	})
-	w.Hooks.Handle("/cc/sync", h)
-	w.Hooks.Handle("/cc/finalize", h)
+	w.Hooks.Handle("/dc/sync", h)
+	w.Hooks.Handle("/dc/finalize", h)
 	w.DeliverAll()
 	// phase 0: the real create path produces a and b (so that last-applied / SSA ownership are genuine) ...
 	for i := 0; i < 3; i++ {
 		if err, p, stack := w.syncKey(key); err != nil || p != nil {
-			if c.Cluster && strings.HasPrefix(c.Method, "Rolling") && err != nil && strings.Contains(err.Error(), "an empty namespace may not be set during creation") {
-				// ControllerRevisions are namespaced and are created in the parent's (empty) namespace
-				bad("cluster-parent-rolling:controllerrevision-without-namespace", "every sync fails, nothing converges: %v", err)
-				c01Outcome = "cluster-parent-rolling"
-				return f
-			}
 			bad("setup", "bootstrap sync failed: %v %v %s", err, p, stack)
 			return f
 		}
 		w.DeliverAll()
 	}
 	// ... then the environment shapes the initial cluster contents
-	matchK, matchV := "app", "x"
-	if c.GenSel {
-		matchK, matchV = "controller-uid", puid
-	}
+	const marker = "metacontroller.k8s.io/decorator-controller"
 	for i, name := range []string{"a", "b"} {
 		switch c.Slots[i] {
 		case "absent":
@@ -178,29 +161,22 @@ func c01Run(c c01Case) []mc.Finding {
 			})
 		case "owned+foreign":
 			w.Sim.Edit(kit.Leaf, cns, name, func(o map[string]interface{}) { kit.Field(o, "x", "spec", "f") })
-		case "orphan", "orphan-drifted":
-			w.Sim.Edit(kit.Leaf, cns, name, func(o map[string]interface{}) {
-				delete(o["metadata"].(map[string]interface{}), "ownerReferences")
-				if c.Slots[i] == "orphan-drifted" {
-					kit.Field(o, "0", "spec", "v")
-				}
-			})
 		}
 	}
 	if c.TwoKinds {
 		w.Sim.Remove(kit.Widget, cns, "w")
 	}
 	if c.Stale {
-		w.Sim.Seed(kit.Labels(kit.Owners(kit.Obj(kit.Leaf, cns, "zz"), kit.OwnerRef(pk, "p", puid, true)), matchK, matchV))
+		w.Sim.Seed(kit.Ann(kit.Owners(kit.Obj(kit.Leaf, cns, "zz"), kit.OwnerRef(pk, "p", puid, true)), marker, "dc"))
 	}
 	if c.Foreign {
 		q := kit.Obj(pk, pns, "q")
 		kit.Field(q, "uid-q", "metadata", "uid")
 		w.Sim.Seed(q) // the other controller's parent exists (otherwise the garbage collector would reap its child)
-		w.Sim.Seed(kit.Labels(kit.Owners(kit.Obj(kit.Leaf, cns, "ff"), kit.OwnerRef(pk, "q", "uid-q", true)), matchK, matchV))
+		w.Sim.Seed(kit.Ann(kit.Owners(kit.Obj(kit.Leaf, cns, "ff"), kit.OwnerRef(pk, "q", "uid-q", true)), marker, "dc"))
 	}
 	if c.OtherNS && !c.Cluster {
-		w.Sim.Seed(kit.Labels(kit.Obj(kit.Leaf, "n2", "a"), matchK, matchV))
+		w.Sim.Seed(kit.Ann(kit.Obj(kit.Leaf, "n2", "a"), marker, "dc"))
 	}
 	prog = c01Program(c, c.Hook, cns)
 	w.DeliverAll()
@@ -225,7 +201,7 @@ func c01Run(c c01Case) []mc.Finding {
 		}
 		writes := 0
 		for _, r := range w.Sim.Log {
-			if r.Mutating() && (r.Applied || r.Code < 300) && r.Kind != world.RevisionKind {
+			if r.Mutating() && (r.Applied || r.Code < 300) {
 				writes++
 			}
 		}
@@ -264,13 +240,13 @@ func c01Run(c c01Case) []mc.Finding {
 		bad("not-quiescent:store-changed", "a further sync changed the API server content")
 	}
 	for _, r := range w.Sim.Log {
-		if r.Mutating() && r.Kind != world.RevisionKind && r.Kind != pk {
+		if r.Mutating() && r.Kind != pk {
 			bad("not-quiescent:child-request", "a further sync sent %s", r)
 		}
 	}
 	var lastCall *world.HookCall
 	for _, hc := range w.Hooks.Calls {
-		if hc.Path == "/cc/sync" {
+		if hc.Path == "/dc/sync" || hc.Path == "/dc/finalize" {
 			lastCall = hc
 		}
 	}
@@ -287,7 +263,7 @@ func c01Run(c c01Case) []mc.Finding {
 	got := map[string]kit.M{}
 	for _, k := range kinds {
 		for _, obj := range w.Sim.All(k) {
-			if kit.ControllerUID(obj) == puid && (c.Cluster || kit.NS(obj) == pns) {
+			if kit.ControllerUID(obj) == puid && kit.Str(obj, "metadata", "annotations", marker) == "dc" && (c.Cluster || kit.NS(obj) == pns) {
 				got[k.Kind+"/"+kit.Name(obj)] = obj
 			}
 		}
@@ -304,7 +280,7 @@ func c01Run(c c01Case) []mc.Finding {
 	if fmt.Sprint(wk) != fmt.Sprint(gk) {
 		bad("owned-set", "owned children %v, hook desires %v", gk, wk)
 	}
-	updates := c.SSA || c.Method == "InPlace" || c.Method == "RollingInPlace" || c.Method == "Recreate" || c.Method == "RollingRecreate"
+	updates := c.Method == "InPlace" || c.Method == "Recreate"
 	if updates {
 		for k, d := range want {
 			if g := got[k]; g != nil {
@@ -329,7 +305,7 @@ func c01Run(c c01Case) []mc.Finding {
 }
 
 func TestVerifC01(t *testing.T) {
-	r := mc.NewReport("C01", "composite")
+	r := mc.NewReport("C01", "decorator")
 	defer r.Write()
 	thorough := mc.Thorough()
 	idx := 0
@@ -337,9 +313,9 @@ func TestVerifC01(t *testing.T) {
 	for _, cluster := range []bool{false, true} {
 		for _, two := range []bool{false, true} {
 			for _, method := range c01Methods {
-				for _, gs := range []bool{true, false} {
+				for _, gs := range []bool{true} {
 					for _, fin := range []bool{false, true} {
-						for _, ssa := range []bool{false, true} {
+						for _, ssa := range []bool{false} {
 							for _, hook := range c01Hooks {
 								for _, s0 := range slots {
 									for _, s1 := range slots {
